@@ -24,6 +24,7 @@ type c26cfg struct {
 	end   string
 	doer  bool // a concurrent thread issues regular tagged commands
 	resp2 bool
+	early bool // environment deviation: a message for the first channel lands between the confirmations of a two-channel SUBSCRIBE
 }
 
 func c26match(kind string, targets []string, ch string) bool {
@@ -50,6 +51,17 @@ func c26body(c c26cfg) func(x *vsched.Exec) {
 		if e.err != nil {
 			x.Fail("client setup failed", "%v", e.err)
 			return
+		}
+		var published []string // "ch:msg" in server order
+		if c.early {
+			fired := false
+			e.srv.BetweenPushes = func(ss *simredis.Session, kind, channel string) {
+				if !fired && kind == "subscribe" {
+					fired = true
+					e.srv.Publish(channel, "m0", false)
+					published = append(published, channel+":m0")
+				}
+			}
 		}
 		type rcv struct {
 			kind    string
@@ -100,7 +112,6 @@ func c26body(c c26cfg) func(x *vsched.Exec) {
 				r.done = true
 			})
 		}
-		var published []string // "ch:msg" in server order, only those published before the end event took effect at the server
 		ended := false
 		vsched.GoNamed("publisher", func() {
 			vsched.Point("wait-confirm", confirmed)
@@ -275,6 +286,9 @@ func TestVerif_C26(t *testing.T) {
 			{name: "psub/unsub", subs: []string{"psub:c*"}, pubs: pubs[:3], end: "unsub"},
 			{name: "ssub/sunsub", subs: []string{"ssub:ch1"}, pubs: pubs[:3], end: "sunsub"},
 			{name: "sub|sub2/unsub", subs: []string{"sub:ch1", "sub:ch1,ch2"}, pubs: pubs[:3], end: "unsub"},
+			{name: "early/sub2ch+doer/unsub", subs: []string{"sub:ch1,ch2"}, pubs: pubs[:3], end: "unsub", doer: true, early: true},
+			{name: "early/sub2ch|sub/cancel", subs: []string{"sub:ch1,ch2", "sub:ch3"}, pubs: pubs[:2], end: "cancel", early: true},
+			{name: "resp2/early/sub2ch+doer/unsub", subs: []string{"sub:ch1,ch2"}, pubs: pubs[:3], end: "unsub", doer: true, early: true, resp2: true},
 			{name: "resp2/sub/unsub", subs: []string{"sub:ch1"}, pubs: pubs[:3], end: "unsub", resp2: true},
 			{name: "resp2/sub+doer/cancel", subs: []string{"sub:ch1"}, pubs: pubs[:3], end: "cancel", resp2: true, doer: true},
 		}
